@@ -398,3 +398,24 @@ Section Reference.
       ++ flat_map o_attr (ru_attrs u)
     end.
 End Reference.
+
+(* ------------------------------------------------------------------ RFC 7606 verdict on a body, for the harness:
+   [-8] the two length fields do not fit the body; [-9] the attribute block is malformed as a whole (truncated
+   header / length overrun); otherwise one <code, 0|1|2> per attribute in order: 1 = malformed (flags or value),
+   2 = a second occurrence of the code *)
+Definition verdict (other : Z -> list Z -> bool) (s : rsess) (b : list Z) : list Z :=
+  match sections b with
+  | None => [-8]
+  | Some (_, ab, _) =>
+    match tlvs (length ab) ab with
+    | None => [-9]
+    | Some l =>
+      (fix go (seen : list Z) (l : list raw) : list Z :=
+         match l with
+         | [] => []
+         | r :: t =>
+           r_code r :: (if existsb (Z.eqb (r_code r)) seen then 2
+                        else if attr_malformed other s r then 1 else 0) :: go (r_code r :: seen) t
+         end) [] l
+    end
+  end.
